@@ -38,6 +38,8 @@ type svCase struct {
 	// EarlyConnect: a connection is made to the socket the moment it exists -- before the line is printed
 	// (the plugin pauses just before printing) -- and kept; the announced address must still accept afterwards
 	EarlyConnect bool `json:"early_connect,omitempty"`
+	// Prints: the plugin writes to its own stdout / stderr right after it started serving
+	Prints bool `json:"prints,omitempty"`
 }
 
 var staticOnce sync.Once
@@ -62,6 +64,11 @@ func runServeCase(c svCase, bin, tmp string) map[string]interface{} {
 	}
 	if c.EarlyConnect {
 		pc.HoldEvent, pc.HoldMs = "serve.line.printing", 120
+	}
+	if c.Prints {
+		// the plugin's own code prints to its (by then redirected) stdout and stderr as soon as it serves:
+		// none of that may show up on the real stdout
+		pc.StdioScript = []vp.StdioWrite{{Stream: "out", N: 300, Seed: 7}, {Stream: "err", N: 200, Seed: 8}, {Stream: "out", N: 5000, Seed: 9}}
 	}
 	// (directory names with characters a careless formatter would interpret)
 	sockDir := filepath.Join(tmp, c.Name+[]string{".sock", ".so%20ck", ".100%sure", ".s%v", ".sock"}[len(c.Name)%5])
